@@ -7,7 +7,7 @@
 //     PRE = none | TREE        RES = (ok TREE) | (panic "msg")      LAYER as in c18.rs
 #[path = "../common.rs"]
 mod common;
-use affinitree::distill::builder::{afftree_from_layers, read_layers, Layer};
+use affinitree::distill::builder::{afftree_from_layers, afftree_from_layers_csv, afftree_from_layers_verbose, read_layers, Layer};
 use affinitree::linalg::affine::{AffFunc, Polytope};
 use affinitree::linalg::polyhedron::PolytopeStatus;
 use affinitree::linalg::verif_hook::{self, Event, Fault};
@@ -219,7 +219,16 @@ fn net_case(r: &mut Rng, id: usize, tier: &str, out: &mut String) {
     let l2 = layers.clone();
     let p2 = pre.clone();
     verif_hook::start(HashMap::new());
-    let res = catch(AssertUnwindSafe(move || afftree_from_layers(n, &l2, p2)));
+    // the three public entry points share the generic builder; each must honour the same arguments
+    let variant = r.below(6);
+    let csv_path = std::env::temp_dir().join(format!("atharness-c01-{}-{}.csv", std::process::id(), id));
+    let cp = csv_path.clone();
+    let res = catch(AssertUnwindSafe(move || match variant {
+        0 => afftree_from_layers_verbose(n, &l2, p2),
+        1 => afftree_from_layers_csv(n, &l2, cp, p2),
+        _ => afftree_from_layers(n, &l2, p2),
+    }));
+    let _ = std::fs::remove_file(&csv_path);
     let log = verif_hook::stop();
     let (rs, pts) = match &res {
         Ok(t) => (format!("(ok {})", sx_tree(t)), sx_points(r, t, 6)),
